@@ -106,6 +106,48 @@ def sc_handlers_mutate(rng):
         a.x = k
 
 
+def sc_anytrait_handlers_mutate(rng):
+    """object-level (anytrait) handlers that remove themselves / each other / add new ones while
+    the object's notifier list is being iterated; the changed traits have no listeners of their own"""
+    class A(HasTraits):
+        x = Int
+        y = Any
+        z = List(Int)
+    a = A()
+    hs = []
+
+    def mk(i):
+        def h(obj, name, old, new):
+            victims = [g for g in hs if g is not h]
+            rng.shuffle(victims)
+            for g in victims[:rng.randint(0, len(victims))]:
+                try:
+                    obj.on_trait_change(g, remove=True)
+                    hs.remove(g)
+                except Exception:
+                    pass
+            if rng.random() < 0.4:
+                try:
+                    obj.on_trait_change(h, remove=True)
+                    hs.remove(h)
+                except Exception:
+                    pass
+            if len(hs) < 6 and rng.random() < 0.6:
+                obj.on_trait_change(mk(i + 100))
+            if rng.random() < 0.4:
+                gc.collect()
+        hs.append(h)
+        return h
+    for rounds in range(rng.randint(2, 6)):
+        for i in range(rng.randint(2, 6)):
+            a.on_trait_change(mk(i))
+        for k in range(rng.randint(1, 6)):
+            a.x = k + 1
+            a.y = object()
+            a.z.append(k)
+            a.z = [k]
+
+
 def sc_default_removes_trait(rng):
     class A(HasTraits):
         pass
@@ -547,7 +589,7 @@ SCENARIOS = [
     sc_default_dict_replaced, sc_validator_replaces_dict, sc_delegate_chain, sc_delegate_cycle,
     sc_delegate_value_dies, sc_nonstr_prefix, sc_nonstr_names, sc_property_pickle,
     sc_gc_threshold, sc_trait_defs_roundtrip, sc_items_event, sc_huge, sc_getattr_hooks,
-    sc_observe_mutating_handlers, sc_default_attribute_error_warning,
+    sc_observe_mutating_handlers, sc_default_attribute_error_warning, sc_anytrait_handlers_mutate,
 ]
 
 
